@@ -77,6 +77,8 @@ def disconnect_message(d):
         return raw, 'login', raw
     if form == 'plain':
         return text, 'login', text
+    if form == 'json_other':      # valid JSON that is not an object/string
+        return text, 'login', text
     if form in ('outdated_client', 'outdated_server'):
         pre = 'Outdated client! Please use ' if form == 'outdated_client' \
             else "Outdated server! I'm still on "
@@ -367,6 +369,9 @@ def terminal_strategy():
     d = st.one_of(
         st.tuples(st.sampled_from(['json_text', 'json_notext', 'json_string',
                                    'plain']), texts),
+        st.tuples(st.just('json_other'),
+                  st.sampled_from(['[{"text":"a"},"b"]', 'null', '42',
+                                   'true', '[]'])),
         st.tuples(st.sampled_from(['outdated_client', 'outdated_server',
                                    'outdated_client_raw',
                                    'outdated_server_raw']), ids))
